@@ -28,7 +28,7 @@ CLAIMED = {
              "released proposal signatures are strictly increasing, so no two proposals share a slot. Kernel-checked for all "
              "inputs; model tied to /repo by the hist-engine correspondence and judged on the implementation's own output. "
              "C02_kernel_is_source: onPropose equals the function translated on every run from the Go source of OnSignBeaconProposal, applied to the model store."
-             " Same enlarged histories as C01; legacy gob records holding slot 0; facts_store_options (NewStore sets no option that switches off the directory lock). Start-up stage (signing while the service starts on a store with old-format records) as in C03/C04.",
+             " Same enlarged histories as C01; legacy gob records holding slot 0; facts_store_options (NewStore sets no option that switches off the directory lock). Start-up stage (signing while the service starts on a store with old-format records) as in C03/C04. Generic-cross histories: no generic signature may verify over another entry's proposer-domain root.",
         note="Trusted: Lean kernel and the three standard axioms; correspondence check; badger Update atomicity.",
         ref="DESIGN.md §6 C02"),
     "C05": dict(
@@ -51,7 +51,7 @@ CLAIMED = {
              "Tied to /repo by enumerating every single fault at every hook site for every request kind and batch position, "
              "undecodable records on disk, and seeded multi-fault histories; positions judged by the Lean biconditional."
              " Also faults raised by badger itself: its write-refusal state (ErrBlockedWrites, reads still served) for the duration of a request, and a real shutdown beginning while a request stands at its write. Fact obligations facts_rules_results / facts_result_switches_total on the regenerated enumerators and switches."
-             " Fault u: the accounts of a request cannot say whether they are unlocked. The permission judge (every signature must be granted by the specification) runs here too. Fault r<k>: the ruler hands the signer fewer verdicts than requests (Model/ShortRules.lean; C06_unruled_atts/_msign/_is_prefix: positions nobody ruled on are never signed).",
+             " Fault u: the accounts of a request cannot say whether they are unlocked. The permission judge (every signature must be granted by the specification) runs here too. Fault r<k>: the ruler hands the signer fewer verdicts than requests (Model/ShortRules.lean; C06_unruled_atts/_msign/_is_prefix: positions nobody ruled on are never signed). C06_kernel_is_source: the signing loop of SignBeaconAttestations / Multisign (verdict switch, error checks, loop bound len(rulesResults)) is translated from the source on every run and proved equal to the model's signing pass.",
         note="Trusted: Lean kernel + 3 axioms; fault injection points are the verif hooks (Store.Fetch/Store/BatchStore entry, after-store, signRoot); handler-level mapping is covered by C20's wire engine.",
         ref="DESIGN.md §6 C06"),
     "C07": dict(
@@ -65,7 +65,7 @@ CLAIMED = {
              "C07_resolved_account: the decision is taken on the canonical name of the resolved account. The whole-name, "
              "case-insensitive matching of patterns (regexify + Go regexp) is modelled (RE2 fragment, derivative matcher) and tied "
              "by ~15k generated (configuration, probe) decisions per quick run, each judged by the Lean specification firstBearing."
-             " Also: account-manager Lock/Unlock requests; a listing stage; and the path from the configuration FILE to the checker (the built binary's --show-permissions must print every operation list in the order written). Identity variants of every configured client (case, blanks, look-alikes, extensions) through the real gRPC API.",
+             " Also: account-manager Lock/Unlock requests; a listing stage; and the path from the configuration FILE to the checker (the built binary's --show-permissions must print every operation list in the order written). Identity variants of every configured client (case, blanks, look-alikes, extensions) through the real gRPC API. Creation stage: the specification must grant Create for the name the account now has.",
         note="One hypothesis about the string-level regex parser (regexify's output parses to the anchored shape around the parse of the pattern, ShapeOK) is not proved; the driver evaluates it for every pattern in use. Go regexp outside the modelled fragment and Unicode folding are not covered. main.go's map-ordered entry list is out of scope (the ordered list given to the checker is what is modelled).",
         ref="DESIGN.md §6 C07"),
     "C08": dict(
@@ -77,7 +77,7 @@ CLAIMED = {
              "GOMAXPROCS 1,2,3,16) is verified by the real BLS library under the addressed account's key over the root computed "
              "by the Lean model's own SHA-256/merkleisation; neighbouring positions' roots must be rejected."
              " Every released signature is judged against the signing root of ITS OWN entry's data (Lean aroot/proot/sroot) even where the model signs nothing; batches with an entry failing before the rules at front/middle/end."
-             " Runs with trace-level logging; distributed accounts addressed by composite and by share keys; all-by-name / all-by-key batches. Account names containing a slash beside an account named by their first element.",
+             " Runs with trace-level logging; distributed accounts addressed by composite and by share keys; all-by-name / all-by-key batches. Account names containing a slash beside an account named by their first element. Failed-then-retried requests (signing / write faults between successes).",
         note="Assumed: SHA-256 collision resistance, herumi BLS. The model's SHA-256/SSZ are re-implementations tied by the verification itself.",
         ref="DESIGN.md §6 C08"),
     "C09": dict(
@@ -87,7 +87,7 @@ CLAIMED = {
              "the verdicts of its entries one at a time), C09_scatter_partition (Scatter's extents tile [0,n) for every n,p>0). "
              "Tie: util.Scatter vs the Lean extents on the full grid n<=600 x 9 GOMAXPROCS values; clean histories judged for "
              "liveness by the Lean predicate; each history's last batch re-run entry by entry on a twin instance."
-             " Wide batches over validators with different histories. Batches of thousands of distinct keys; a request not answered within the watchdog time is reported with its history.",
+             " Wide batches over validators with different histories. Batches of thousands of distinct keys; a request not answered within the watchdog time is reported with its history. Transient-fault histories: the same duty again after a store call that failed without effect must be signed.",
         note="Liveness at history level assumes fault-free, import-free histories (stated in the property). Trusted: Lean kernel + 3 axioms; correspondence check.",
         ref="DESIGN.md §6 C09"),
     "C10": dict(
@@ -121,7 +121,7 @@ CLAIMED = {
              "the interrupted request, and refuse conflicting probes; call-order traces (store exit before sign) are diffed with the "
              "model; SyncWrites is read back from the open store and the value log's O_DSYNC/fsync is checked under strace."
              " Replies given before each kill are compared with the model (a request whose state write failed must carry no signature); fact obligation facts_result_switches_total (every switch over rules.Result names all enumerators or has a default)."
-             " Start-up stage shared with C04 (stores with old-format records, stalled first write, periodic pruning on). Read faults on batch positions and write faults before the kill.",
+             " Start-up stage shared with C04 (stores with old-format records, stalled first write, periodic pruning on). Read faults on batch positions and write faults before the kill. Crafted history with batches in descending key order.",
         note="Assumed: fsynced badger data survives power loss and badger's recovery replays it; SIGKILL cannot lose page-cache data so durability itself is probed only by option read-back and syscall trace. A crash leaving a strict subset of a batch written is not modelled (badger WriteBatch atomicity assumed).",
         ref="DESIGN.md §6 C03"),
     "C04": dict(
@@ -156,7 +156,7 @@ CLAIMED = {
              "key/vector/threshold/participants, share vs vector, every t-subset recovers, no (t-1)-subset does, immediate sign+list) "
              "and the secret recovered by the Lean driver's own Lagrange interpolation over Z_r maps to the composite key."
              " After each further generation into the same wallet every earlier account is re-examined (held, consistent, usable)."
-             " Clusters with more peers than participants and vice versa; judges on the bounds and the participant count of every reported success. Generations for different names in one wallet with overlapping commit phases (op gensp).",
+             " Clusters with more peers than participants and vice versa; judges on the bounds and the participant count of every reported success. Generations for different names in one wallet with overlapping commit phases (op gensp). Clusters whose instances see each other under different ports; participant endpoints compared.",
         note="Assumed: herumi BLS (field/group laws, hash-to-curve, Recover), CSPRNG. Real gRPC between daemons is unavailable in the sandbox (peer names do not resolve); messages pass the real receiver handlers after a protobuf round trip.",
         ref="DESIGN.md §6 C12", engine="lean+dkg"),
     "C13": dict(
@@ -176,7 +176,7 @@ CLAIMED = {
              "instances with separate rules stores; conflicting duty pairs routed to random subsets/interleavings with repeats; "
              "per-instance verdicts diffed with the model; the Lean judge counts partial signatures per duty; partial signatures of a "
              "duty that reached t are combined by the BLS library and verified under the composite key over the model's signing root."
-             " Partial signatures are also counted by what they VERIFY over: every signature released in a pair's window is checked under the instance's share key against both duties' roots; duties also arrive as the first entry of a batch addressed to an unknown account. Conflicting pairs on the single endpoints while the store refuses writes (op iattb).",
+             " Partial signatures are also counted by what they VERIFY over: every signature released in a pair's window is checked under the instance's share key against both duties' roots; duties also arrive as the first entry of a batch addressed to an unknown account. Conflicting pairs on the single endpoints while the store refuses writes (op iattb). Cluster processes under GOMAXPROCS 1 / default / 2.",
         note="Concurrency inside one instance is reduced to a serial order by C04. Assumed: BLS library.",
         ref="DESIGN.md §6 C14", engine="lean+dkg"),
     "C16": dict(
@@ -187,7 +187,7 @@ CLAIMED = {
              "5 messages x instances x states none/prepared/executed/committed, generation then completed by a peer; share ownership for "
              "all ordered participant pairs checked with the BLS library (the reply's share verifies at the caller's id only)."
              " Projection judge: the same scenario without the messages refused as 'unknown sender' must answer every other message identically (refused AND changes nothing, decided on the implementation alone)."
-             " C16_projection (history level). Op shareowners: replies examined after later calls were handled. Op hexecute2: the same Execute from a peer and from a non-peer overlapping in time.",
+             " C16_projection (history level). Op shareowners: replies examined after later calls were handled. Op hexecute2: the same Execute from a peer and from a non-peer overlapping in time. Peer-table validation (peersAccepted; C16_accepted_peers_distinct, C16_duplicate_peer_name_refused).",
         note="TLS authentication itself is C19; here the authenticated name is injected into the context the way the interceptor does.",
         ref="DESIGN.md §6 C16", engine="lean+dkg"),
     "C17": dict(
@@ -199,7 +199,7 @@ CLAIMED = {
              "sleeps, staggered expiries and simultaneous prepares; reply classes and account presence diffed with the model; every successful commit "
              "judged on the model state and every reply judged by Spec.Life on the implementation's output alone."
              " Variants in which the callers' request contexts carry deadlines far beyond / well inside the generation timeout."
-             " Templates: failed execute then commit; a re-prepared name crossing the old generation's deadline. Dozens of abandoned generations; a prepare refused while no generation for the account is live is a violation.",
+             " Templates: failed execute then commit; a re-prepared name crossing the old generation's deadline. Dozens of abandoned generations; a prepare refused while no generation for the account is live is a violation. Valid contributions (hcontributev) before and after expiry.",
         note="Event sequences are restricted to those whose outcome does not depend on Go's map iteration order. The model clock advances only by explicit sleeps (chosen far from the timeout).",
         ref="DESIGN.md §6 C17", engine="lean+dkg"),
     "C18": dict(
@@ -211,7 +211,7 @@ CLAIMED = {
              "and after accounts created through dirk; result multisets diffed with the model and judged sound/complete by the Lean "
              "specification (firstBearing + whole-name match); each entry's key cross-checked with the fetcher."
              " Populations include DISTRIBUTED wallets with imported accounts (participant endpoints of every spelling) and 40% of the scenarios are listed through the real gRPC ListAccounts handler; earlier listings are repeated after creations."
-             " Key generation with a wallet-store read fault: what is in a participant's wallet is listed. A wallet in a second store of the same type.",
+             " Key generation with a wallet-store read fault: what is in a participant's wallet is listed. A wallet in a second store of the same type. Patterns differing only in the case of a class escape.",
         note="Over-listing inside accessible accounts of a requested wallet (the lister's un-grouped anchoring) is not flagged: C18 as stated allows it.",
         ref="DESIGN.md §6 C18"),
     "C19": dict(
@@ -236,7 +236,7 @@ CLAIMED = {
              "garbage, DKG messages from non-peers) sent over gRPC to a daemon in a child process under ulimit -v 16 GiB, a second "
              "client probing liveness after every message."
              " Fixed corpus enumerates participant/threshold corner pairs of Generate on the distributed wallet."
-             " The liveness probe also signs; regular-expression syntax payloads; callers that give up after 1-20 ms. Batch-size sweep (every size 1-70 and around multiples of the processor count).",
+             " The liveness probe also signs; regular-expression syntax payloads; callers that give up after 1-20 ms. Batch-size sweep (every size 1-70 and around multiples of the processor count). A paced sequence of wrong-passphrase unlocks.",
         note="Assumed: allocator size classes (short byte fields get capacity >= 8), C-library robustness. The inventory is syntactic (panic, unchecked assertion, constant-bound slice, non-constant make); plain indexing is covered by the shape theorems.",
         ref="DESIGN.md §6 C20", engine="lean+factx+dh"),
 }
